@@ -90,6 +90,8 @@ func main() {
 			gcSoak(secs, seed)
 		case "retain":
 			gcRetain()
+		case "barrier":
+			gcBarrier(secs)
 		case "escape":
 			gcEscape()
 		case "alias":
@@ -119,6 +121,16 @@ func main() {
 			os.Exit(3)
 		}
 		fmt.Println("generic fixed scenarios ok")
+	case "eventsarm":
+		// listeners that act on the world from inside their callback; oracle: replay of the events
+		seed, _ := strconv.ParseUint(os.Args[2], 10, 64)
+		rounds, _ := strconv.Atoi(os.Args[3])
+		steps, err := eventsArm(seed, rounds)
+		if err != nil {
+			fmt.Println("EVENTS-ARM FAILURE:", err)
+			os.Exit(3)
+		}
+		fmt.Printf("events arm ok steps=%d rounds=%d\n", steps, rounds)
 	case "typeshapes":
 		// every kind of Go type maps to one id through the generic and the reflect.Type entry points
 		if err := genericShapes(); err != nil {
